@@ -66,6 +66,13 @@ def chain(ctx, pts, cfg, family):
                 ctx.tag('gained-index-in-all-below-eps-segment')
             elif d[x - a] < mx - 1e-9 * (1 + abs(mx)):
                 ctx.fail('predicate', 'gained-index-is-farthest', res['site'], res['case'], dict(k=k, x=x, segment=[a, b], dist=float(d[x - a]), max=mx))
+            if not alleps and np.all(np.isfinite(pts)):
+                # the same rule against the GEOMETRIC definition of the distance (independent of the package's primitives)
+                gd, gn = rdpfam.geo_dist(pts[a:b + 1], cfg['dist'])
+                gmx = float(np.max(gd[1:-1]))
+                if gd[x - a] + gn < gmx - gn and gd[x - a] < gmx * (1 - 1e-9):
+                    ctx.fail('predicate', 'gained-index-is-geometrically-farthest', res['site'], res['case'],
+                             dict(k=k, x=x, segment=[a, b], dist=float(gd[x - a]), max=gmx, noise=gn))
             # greedy: the refined segment has maximal score among retained segments with interior points
             segs = [(p, q) for p, q in zip(prev, prev[1:]) if q - p >= 2]
             if len(segs) > 1:
@@ -75,6 +82,14 @@ def chain(ctx, pts, cfg, family):
                 if mine < best and not (abs(best - mine) <= 1e-12 * (abs(best) + abs(mine))):
                     ctx.fail('predicate', 'refined-segment-has-maximal-score', res['site'], res['case'],
                              dict(k=k, refined=[a, b], score=mine, best=best, scores={str(s): v for s, v in sc.items()}))
+                # the same rule against the GEOMETRIC definition of the score (independent of the package's distance primitives)
+                if cfg['order'] != 'segment' and np.all(np.isfinite(pts)):
+                    gs = {s: rdpfam.geo_score(pts, s[0], s[1], cfg['dist'], cfg['order']) for s in segs}
+                    gm, gmn = gs[(a, b)]
+                    gb, gbn = max(gs.values(), key=lambda v: v[0] - v[1])
+                    if gm + gmn < gb - gbn and gm < gb * (1 - 1e-9):
+                        ctx.fail('predicate', 'refined-segment-has-maximal-geometric-score', res['site'], res['case'],
+                                 dict(k=k, refined=[a, b], score=gm, best=gb, noise=[gmn, gbn], scores={str(s): v[0] for s, v in gs.items()}))
                 if sum(1 for v in sc.values() if v == best) > 1:
                     ctx.tag('tie:equal-best-scores')
     nontriv = (tuple(sorted(cfg.items())), pts.tobytes()) if ok_chain and n >= 4 else None
